@@ -356,6 +356,9 @@ func cmdCheck(args []string) {
 	}
 
 	for _, m := range cfg.Modules {
+		if strings.HasPrefix(m.Dir, "/repo") && repoRoot() != "/repo" {
+			m.Dir = repoRoot() + strings.TrimPrefix(m.Dir, "/repo")
+		}
 		p, sp, err := Setup(m.Dir, m.Pkgs, *specDir)
 		if err != nil {
 			problem("load-error", m.Dir, "load", err.Error(), nil, nil)
@@ -860,3 +863,11 @@ func fatal(err error) {
 	os.Exit(2)
 }
 
+
+// repoRoot: the repository under verification (/repo; GOVC_REPO overrides it for runs of the seeded corpus on a scratch clone).
+func repoRoot() string {
+	if r := os.Getenv("GOVC_REPO"); r != "" {
+		return r
+	}
+	return "/repo"
+}
